@@ -381,8 +381,58 @@ static void gen_history (void)
     end_history ();
 }
 
+/* ------------------------------------------------------------------ re-entrant destroy callbacks (oracle only)
+ * The destroy callback runs while the image is still intact and may legally call setters on it.  Scenarios: the callback
+ * detaches / replaces the alpha map, replaces the transform, filter or clip.  Oracle: the alpha maps the application
+ * still references are alive with exactly the application's references, every map's own destroy callback fires exactly
+ * once and only at its last unref, and the allocation census returns to its starting value. */
+static int re_mode, re_fired[4]; static pixman_image_t *re_other;
+static long nlive_blocks (void) { return nblk; }
+static void re_map_destroy (pixman_image_t *im, void *data) { re_fired[(int)(intptr_t)data]++; }
+static void re_destroy (pixman_image_t *im, void *data)
+{
+    re_fired[0]++;
+    if (re_mode == 1) pixman_image_set_alpha_map (im, NULL, 0, 0);
+    if (re_mode == 2) pixman_image_set_alpha_map (im, re_other, 1, 1);
+    if (re_mode == 3) { pixman_transform_t t; pixman_transform_init_scale (&t, pixman_int_to_fixed (2), pixman_int_to_fixed (3)); pixman_image_set_transform (im, &t); }
+    if (re_mode == 4) { pixman_fixed_t k[3] = { pixman_int_to_fixed (1), pixman_int_to_fixed (1), pixman_fixed_1 }; pixman_image_set_filter (im, PIXMAN_FILTER_CONVOLUTION, k, 3); }
+    if (re_mode == 5) { pixman_region32_t r; pixman_region32_init_rect (&r, 0, 0, 3, 3); pixman_region32_union_rect (&r, &r, 5, 5, 2, 2); pixman_image_set_clip_region32 (im, &r); pixman_region32_fini (&r); }
+    if (re_mode == 6) pixman_image_set_alpha_map (im, NULL, 0, 0), pixman_image_set_alpha_map (im, re_other, 0, 0), pixman_image_set_alpha_map (im, NULL, 0, 0);
+}
+static int run_reentrant (void)
+{
+    int bad = 0;
+    in_lib = 1; fail_cd = 0; badfree = 0;
+    for (int mode = 0; mode <= 6; mode++) for (int pre = 0; pre < 2; pre++) {
+        long live0 = nlive_blocks ();
+        pixman_image_t *a = pixman_image_create_bits (PIXMAN_a8r8g8b8, 8, 8, NULL, 0), *m = pixman_image_create_bits (PIXMAN_a8, 8, 8, NULL, 0), *o = pixman_image_create_bits (PIXMAN_a8, 8, 8, NULL, 0);
+        if (!a || !m || !o) { printf ("reentrant: allocation failed\n"); return 1; }
+        memset (re_fired, 0, sizeof re_fired); re_mode = mode; re_other = o;
+        pixman_image_set_destroy_function (m, re_map_destroy, (void *)(intptr_t)1); pixman_image_set_destroy_function (o, re_map_destroy, (void *)(intptr_t)2);
+        pixman_image_set_alpha_map (a, m, 0, 0);
+        if (pre) { pixman_transform_t t; pixman_transform_init_identity (&t); t.matrix[0][2] = 77; pixman_image_set_transform (a, &t);
+                   pixman_region32_t r; pixman_region32_init_rect (&r, 0, 0, 2, 2); pixman_region32_union_rect (&r, &r, 4, 4, 2, 2); pixman_image_set_clip_region32 (a, &r); pixman_region32_fini (&r); }
+        pixman_image_set_destroy_function (a, re_destroy, NULL);
+        int ret = pixman_image_unref (a);
+        if (!ret) { printf ("reentrant mode %d pre %d: last unref returned FALSE\n", mode, pre); bad = 1; }
+        if (re_fired[0] != 1) { printf ("reentrant mode %d pre %d: the image's destroy callback fired %d times\n", mode, pre, re_fired[0]); bad = 1; }
+        if (re_fired[1] || re_fired[2]) { printf ("reentrant mode %d pre %d: an alpha map the application still references was destroyed (map %d, other %d)\n", mode, pre, re_fired[1], re_fired[2]); bad = 1; }
+        else {
+            if (m->common.ref_count != 1 || o->common.ref_count != 1) { printf ("reentrant mode %d pre %d: reference counts after the image died: map %d, other %d (application holds 1 each)\n", mode, pre, m->common.ref_count, o->common.ref_count); bad = 1; }
+            if (m->common.ref_count >= 1) pixman_image_unref (m); if (o->common.ref_count >= 1) pixman_image_unref (o);
+            if (re_fired[1] != 1 || re_fired[2] != 1) { printf ("reentrant mode %d pre %d: map destroy callbacks after the last unrefs: %d, %d\n", mode, pre, re_fired[1], re_fired[2]); bad = 1; }
+        }
+        if (!bad && nlive_blocks () != live0) { printf ("reentrant mode %d pre %d: %ld blocks still allocated\n", mode, pre, nlive_blocks () - live0); bad = 1; }
+        if (!bad && badfree) { printf ("reentrant mode %d pre %d: %d frees of blocks that were not allocated (double free)\n", mode, pre, badfree); bad = 1; }
+        if (bad) return 1;
+    }
+    printf ("reentrant ok\n");
+    return 0;
+}
+
 int main (int argc, char **argv)
 {
+    if (argc == 2 && !strcmp (argv[1], "reentrant")) return run_reentrant ();
     if (argc == 6 && !strcmp (argv[1], "gen")) {
         fops = fopen (argv[4], "w"); fo = fopen (argv[5], "w"); if (!fops || !fo) return 2;
         rng_seed (strtoull (argv[2], NULL, 10));
